@@ -69,7 +69,7 @@ func seqPart(c *vf.Ctx) {
 	}
 	c.Extra("phase_s_seq_set_exhaustive", int(time.Since(startT).Seconds()))
 	// ds.Set: random long histories over 6 elements
-	nSet := c.Pick(10000, 150000)
+	nSet := c.Pick(6400, 128000)
 	vf.Parallel(64, workers, func(i int) {
 		l := newLocal()
 		rng := c.Rand(fmt.Sprintf("set-random/%d", i))
@@ -443,7 +443,7 @@ func run(c *vf.Ctx) {
 		replay(c)
 		return
 	}
-	c.SetRule("sequential: one evaluation = one history whose last step is compared with the reference model (exhaustive part: all histories up to length 3 over the ds.Set alphabet on 3 elements – Add/Delete/AddAll/DeleteAll/Replace with every subset and the set itself, Apply/Compute with every disjoint pair of subsets, Clear, Clone, serix round trip – and up to length 6 (quick) / 7 (thorough) over the OrderedMap alphabet on 3 keys) or one checked step of a seeded long history (6 elements; ds.Set 40 steps with all read-only methods against every subset after each step, OrderedMap 60 steps, SetArithmetic 12 calls with thresholds 1-3); " +
+	c.SetRule("sequential: one evaluation = one history whose last step is compared with the reference model (exhaustive part: all histories up to length 3 over the ds.Set alphabet on 3 elements – Add/Delete/AddAll/DeleteAll/Replace with every subset and the set itself, Apply with every disjoint pair of subsets, Compute with every disjoint pair of at most one element each, Clear, Clone, serix round trip – and up to length 6 (quick) / 7 (thorough) over the OrderedMap alphabet on 3 keys) or one checked step of a seeded long history (6 elements; ds.Set 40 steps with all read-only methods against every subset after each step, OrderedMap 60 steps, SetArithmetic 12 calls with thresholds 1-3); " +
 		"concurrent: one evaluation = one completed method combination (all 190 pairs and 1330 triples of 19 Set methods, looped on one set) or one recorded history judged by porcupine (Apply/Compute/Replace on a whole-set model; Add/Delete/Has and Set/Get/Has/Delete partitioned per key); " +
 		"distinct_nontrivial counts distinct (operation-class sequence, resulting order) signatures of sequential histories plus distinct completed method combinations")
 	stop := startProfile()
